@@ -60,11 +60,12 @@ type Profile struct {
 	Fault           map[string]int // enabled fault kinds -> weight
 	SeqWeight       int
 	Quota           bool
-	SlowReads       bool   // some clients read responses slowly (response writes are seams)
-	ReadOnlyReplica bool   // the last replica is configured read-only (it has no submission endpoints; reads must be served as anywhere else)
-	StoreIgnoresCtx bool   // external mode: the chain store finishes lookups whatever happens to the request's context
-	Prefill         int    // external mode: submissions made (honestly, through the front end) before the run proper starts
-	CacheKind       string // external mode: noop | lru | lru-ttl | chaos
+	SlowReads       bool          // some clients read responses slowly (response writes are seams)
+	BackendAhead    time.Duration // the backend's clock runs ahead of the front ends' (clocks of two machines are never the same)
+	ReadOnlyReplica bool          // the last replica is configured read-only (it has no submission endpoints; reads must be served as anywhere else)
+	StoreIgnoresCtx bool          // external mode: the chain store finishes lookups whatever happens to the request's context
+	Prefill         int           // external mode: submissions made (honestly, through the front end) before the run proper starts
+	CacheKind       string        // external mode: noop | lru | lru-ttl | chaos
 	CacheSize       int
 	CacheTTL        time.Duration
 	Stall           string // a slow component: seam-name prefix whose answers the driver hands out reluctantly, so calls in flight pile up behind it
@@ -159,6 +160,7 @@ func (w *World) Init(s *kernel.Sim) {
 	p.Quota = t.Chance(1, 3)
 	p.SlowReads = t.Chance(1, 3)
 	p.ReadOnlyReplica = p.Replicas > 1 && t.Chance(1, 2)
+	p.BackendAhead = []time.Duration{0, 0, 0, 3 * time.Millisecond, 2 * time.Second, time.Hour}[t.Intn(6)]
 	p.MaxOps = t.Range(4, 28)
 	p.Conc = t.Range(1, 4)
 	if kernel.Thorough() {
@@ -186,6 +188,11 @@ func (w *World) Init(s *kernel.Sim) {
 		}
 		if w.mode.LostReply && t.Chance(1, 2) {
 			p.Fault["rpc.lostreply"] = 2
+		}
+		if w.mode.LostReply && t.Chance(1, 2) {
+			// a QueueLeaf reply without (or with an undecodable) leaf - e.g. a backend that reports a duplicate by status
+			// alone: whatever the front end then does, it has no stored entry to repeat the timestamp of
+			p.Fault["rpc.malformed"] = 1
 		}
 	}
 
@@ -228,7 +235,7 @@ func (w *World) build() {
 	w.pki = NewPKI(t, epoch, 3, 3)
 	w.logKey = oracle.Keys(p.LogKeyKind)[t.Intn(2)]
 	w.prefix = "/sim"
-	w.be = &Backend{S: s, Log: reflog.New(7001, epoch.UnixNano()), Name: "be"}
+	w.be = &Backend{S: s, Log: reflog.New(7001, epoch.Add(p.BackendAhead).UnixNano()), Name: "be", Ahead: p.BackendAhead}
 	rootsFile := WriteRoots(s.TB.TempDir(), "roots.pem", w.pki.Roots)
 	w.rootsFile = rootsFile
 	priv, pub := LogKey(w.logKey)
